@@ -62,6 +62,64 @@ impl Family for OverlongClose {
     }
 }
 
+/// Commands for ids that are not open, in every shape a client might give them: ids from a palette
+/// (0, never-prepared small ones, 2^16+1, 2^31, 2^32-1 - the value some servers read as "the
+/// statement prepared last"), EXECUTE with every interesting flags byte and iteration count and with
+/// or without a parameter block, long data with and without bytes; while another statement is
+/// open, after the id was closed, and on a connection that never prepared anything. None may reach
+/// the shim; the connection ends with an error.
+struct DeadIds;
+const DEAD_IDS: [u32; 7] = [0, 3, 77, 65_537, 0x8000_0000, 0xffff_fffe, 0xffff_ffff];
+const DEAD_FLAGS: [u8; 6] = [0, 1, 2, 4, 0x80, 0xff];
+impl DeadIds {
+    fn case(idx: u64) -> (u32, u8, u32, usize, usize) {
+        let d = digits(idx, &[DEAD_IDS.len() as u64, DEAD_FLAGS.len() as u64, 3, 3, 3]);
+        (DEAD_IDS[d[0] as usize], DEAD_FLAGS[d[1] as usize], [0u32, 1, u32::MAX][d[2] as usize], d[3] as usize, d[4] as usize)
+    }
+}
+impl Family for DeadIds {
+    fn name(&self) -> String {
+        "commands-for-ids-that-are-not-open".into()
+    }
+    fn len(&self) -> u64 {
+        (DEAD_IDS.len() * DEAD_FLAGS.len() * 3 * 3 * 3) as u64
+    }
+    fn run(&self, idx: u64, st: &mut Stats) -> Result<(), Violation> {
+        use crate::refwire::*;
+        let (id, flags, iter, shape, ctx) = Self::case(idx);
+        st.nontrivial += 1;
+        st.bump("dead_id_commands");
+        let block = exec_block(&[ExecParam { ty: 0x03, unsigned: false, wire: Some(vec![1, 0, 0, 0]), long: false }], true);
+        let dead = match shape {
+            0 => cmd_execute(id, flags, iter, &[]),
+            1 => cmd_execute(id, flags, iter, &block),
+            _ => cmd_long(id, 0, if flags & 1 == 1 { b"data" } else { b"" }),
+        };
+        // context: nothing prepared / another statement open and executed / the same id prepared,
+        // executed and closed before (only for ids the shim can hand out: all of them)
+        let mut payloads = match ctx {
+            0 => vec![],
+            1 => vec![with_byte(COM_STMT_PREPARE, b"id=1 p=1"), cmd_execute(1, 0, 1, &block)],
+            _ => vec![with_byte(COM_STMT_PREPARE, format!("id={} p=1", id).as_bytes()), cmd_execute(id, 0, 1, &block), cmd_close(id), with_byte(COM_STMT_PREPARE, b"id=1 p=1")],
+        };
+        if ctx == 2 && id == 1 {
+            payloads.pop();
+        }
+        payloads.push(dead);
+        payloads.push(vec![COM_PING]);
+        run_payloads(&payloads, &[], st).map(|_| ()).map_err(|mut v| {
+            v.msg = format!("id {:#x}, flags {:#04x}, iteration count {}, shape {}, context {}: {}", id, flags, iter, shape, ctx, v.msg);
+            v
+        })
+    }
+    fn describe(&self, idx: u64) -> J {
+        let (id, flags, iter, shape, ctx) = Self::case(idx);
+        let shape = ["EXECUTE without parameter block", "EXECUTE with a parameter block", "SEND_LONG_DATA"][shape];
+        let ctx = ["nothing prepared", "another statement open", "the id was prepared, executed and closed; another statement is open"][ctx];
+        json!({"id": id, "flags": flags, "iteration_count": iter, "command": shape, "context": ctx})
+    }
+}
+
 pub fn build(quick: bool) -> Check {
     let alpha = alphabet();
     let mut families: Vec<Box<dyn Family>> = Vec::new();
@@ -79,6 +137,7 @@ pub fn build(quick: bool) -> Check {
     families.push(Box::new(Histories { label: "lifecycle".into(), hists: scale_lifecycle() }));
     families.push(Box::new(Histories { label: "lifecycle-counter-wraps".into(), hists: wraps_lifecycle(quick) }));
     families.push(Box::new(OverlongClose));
+    families.push(Box::new(DeadIds));
     families.push(Box::new(super::c16::CycleCounts { max_k: if quick { 600 } else { 1300 } }));
     families.push(Box::new(super::soak::Soak { label: "all-mixes", lens: super::soak::lens(quick), mixes: super::soak::MIXES.to_vec(), opts: super::soak::opts_all(), big: super::soak::big_default(quick) }));
     if !quick {
@@ -87,7 +146,7 @@ pub fn build(quick: bool) -> Check {
     Check {
         id: "C10",
         level: "model_checking",
-        rule: format!("histories over {} actions: PREPARE(id 1|2, 0..2 params, accepted|rejected), EXECUTE(id 1|2|3(never prepared), bind|reuse), LONG_DATA (with data and empty), CLOSE. (1) the full history tree to depth {} from a fresh connection, no abstraction; (2) BFS over reference-model states (registry map) where every transition is validated by re-running the implementation on witness+action, from two different witnesses per state when two were found. Long scripted sessions: 130..4099 (thorough: up to 131101) ordinary commands of every kind on one connection in up to six mixes (even, prepare/close churn with growing ids, executions, long-data chunks, unanswered commands, text and library-answered commands) under several client/transport behaviours (pipelined, request ids advancing by 7, lock-step, 1..4093-byte reads, 7/11-byte writes), generated by a fixed rule, kept valid with the registry model and judged on the complete trace (callbacks with arguments, result, strict decode of every reply with its sequence ids). Oracle per history: complete callback log, run_on result and strictly decoded replies equal the registry model (dead ids never reach the shim and end the connection with Err, every CLOSE -> exactly one on_close and no reply bytes, re-prepare resets parameter count/types/long data). (3) long histories: 8..1000 open statements, one long-lived statement next to 6..600 prepare/execute/close cycles; statements of 9..300 parameters closed and re-prepared under the same or another id; COM_STMT_CLOSE packets with 1..29 trailing bytes; thorough: 120 MB of long data discarded by re-preparing an open id. Non-trivial = history not pruned as a duplicate.", alpha.len(), if quick {6} else {7}),
+        rule: format!("histories over {} actions: PREPARE(id 1|2, 0..2 params, accepted|rejected), EXECUTE(id 1|2|3(never prepared), bind|reuse), LONG_DATA (with data and empty), CLOSE. (1) the full history tree to depth {} from a fresh connection, no abstraction; (2) BFS over reference-model states (registry map) where every transition is validated by re-running the implementation on witness+action, from two different witnesses per state when two were found. Long scripted sessions: 130..4099 (thorough: up to 131101) ordinary commands of every kind on one connection in up to six mixes (even, prepare/close churn with growing ids, executions, long-data chunks, unanswered commands, text and library-answered commands) under several client/transport behaviours (pipelined, request ids advancing by 7, lock-step, 1..4093-byte reads, 7/11-byte writes), generated by a fixed rule, kept valid with the registry model and judged on the complete trace (callbacks with arguments, result, strict decode of every reply with its sequence ids). Oracle per history: complete callback log, run_on result and strictly decoded replies equal the registry model (dead ids never reach the shim and end the connection with Err, every CLOSE -> exactly one on_close and no reply bytes, re-prepare resets parameter count/types/long data). (3) long histories: 8..1000 open statements, one long-lived statement next to 6..600 prepare/execute/close cycles; statements of 9..300 parameters closed and re-prepared under the same or another id; COM_STMT_CLOSE packets with 1..29 trailing bytes; EXECUTE / SEND_LONG_DATA for seven ids that are not open (0 .. 2^32-1) x six flags bytes x three iteration counts x with/without parameter block x three contexts; thorough: 120 MB of long data discarded by re-preparing an open id. Non-trivial = history not pruned as a duplicate.", alpha.len(), if quick {6} else {7}),
         assumptions: vec![
             "an EXECUTE that reuses types when none were ever bound for the (re-)prepared statement is treated as connection-ending (it cannot be decoded)".into(),
             "BFS merging assumes hidden implementation state is a function of the model state; tested with two witnesses per state and not assumed at all by the tree".into(),
@@ -96,6 +155,6 @@ pub fn build(quick: bool) -> Check {
         exhaustive: true,
         caps_hit: vec![],
         families,
-        required: vec!["soak_sessions", "histories_ending_in_refusal", "execute_after_close", "re_prepare", "bfs_states", "long_histories", "states_with_two_witnesses"],
+        required: vec!["soak_sessions", "dead_id_commands", "histories_ending_in_refusal", "execute_after_close", "re_prepare", "bfs_states", "long_histories", "states_with_two_witnesses"],
     }
 }
